@@ -9,7 +9,7 @@
 From Coq Require Import QArith Reals.
 From Flocq Require Import Core.Core IEEE754.BinarySingleNaN.
 From SC Require Import Base.Prelude Cmp.Cmp Cmp.Logic Cmp.Tolerance Cmp.FloatB64 Cmp.GoTime Cmp.Spec Cmp.LogicProofs Cmp.ToleranceProofs Cmp.FloatB64Proofs
-  Cmp.GoTimeProofs Cmp.CmpProofs Cmp.CmpTableProofs Cmp.SpecSymProofs Cmp.CollEquiv Cmp.CollEquivProofs Cmp.C16Judge Cmp.TreeProofs Cmp.JudgeProofs Cmp.CollJudgeProofs Cmp.MaskJudgeProofs
+  Cmp.GoTimeProofs Cmp.CmpProofs Cmp.CmpTableProofs Cmp.SpecSymProofs Cmp.CollEquiv Cmp.CollEquivProofs Cmp.C16Judge Cmp.TreeProofs Cmp.JudgeProofs Cmp.CollJudgeProofs Cmp.MaskJudgeProofs Cmp.CollLossy Cmp.CollLossyProofs
   Resource.Impl Resource.Pull Resource.PullProofs.
 Open Scope Z_scope.
 
@@ -481,6 +481,71 @@ Example C16_nonvacuous_tree :
   (agrees c && C16_guard c && in_scope_all c && C16_ok c) = true.
 Proof. repeat split; vm_compute; reflexivity. Qed.
 
+(* ---- Collection.Pull WITHOUT backpressure under an equivalence: the merge stage composed with the held map ---- *)
+Section LossyProps.
+  Variable M : Type.
+  Variable rmask : Type.
+  Variable r_filter : rmask -> M -> M.
+  (* the merge-stage model (Excess/MergeExcess.v) works on tokens: any injective naming of ids, any valuation *)
+  Variable name : Z -> string.
+  Variable code : string -> Z.
+  Hypothesis code_name : forall i, code (name i) = i.
+  Variable val : Z -> M.
+  Variable kind_of : Z -> kind.
+
+  (* for EVERY schedule of the merge stage (any interleaving of writes arriving and the subscription's loop
+     taking changes) and every history of writes, what mergeCollectionExcess hands on is a chained history
+     again: the old value of a merged change (a REPLACE included) is the new value of the previous change
+     handed on for that id *)
+  Theorem C16_collection_lossy_history_chained : forall l v0,
+    MergeExcess.no_close l = true -> Change.valid_script (MergeExcess.sent_of l) v0 = true ->
+    ev_chained_from (dview name code val v0) (handed_on name val kind_of l).
+  Proof. intros. apply merged_history_chained; assumption. Qed.
+
+  (* ... and so the loop delivers a merged change exactly when its new value is NOT equivalent to what the
+     subscriber holds for that id -- every schedule, history, comparer, read mask and include filter *)
+  Theorem C16_collection_lossy_delivers_iff_not_equivalent_to_held :
+    forall cmp (ro : ropts M rmask) l v0 (h : heldmap M) (w : view M),
+    MergeExcess.no_close l = true -> Change.valid_script (MergeExcess.sent_of l) v0 = true ->
+    held_inv h w (seen r_filter ro (dview name code val v0)) ->
+    c_forward_held r_filter (Some cmp) ro h (handed_on name val kind_of l)
+    = ideal_filter cmp w (offered r_filter ro (handed_on name val kind_of l)).
+  Proof. intros. eapply lossy_delivers_iff_not_equivalent_to_held; eassumption. Qed.
+
+  (* a seeded subscriber holds the seed as sent: a REPLACE of a seeded id is compared with the seed value *)
+  Theorem C16_collection_lossy_seeded :
+    forall cmp (ro : ropts M rmask) (sd : list (cchange M)) l v0,
+    MergeExcess.no_close l = true -> Change.valid_script (MergeExcess.sent_of l) v0 = true ->
+    (forall k, holds_after (fun _ => None) sd k = None -> seen r_filter ro (dview name code val v0) k = None) ->
+    c_forward_held r_filter (Some cmp) ro (held_of_seeds sd) (handed_on name val kind_of l)
+    = ideal_filter cmp (holds_after (fun _ => None) sd) (offered r_filter ro (handed_on name val kind_of l)).
+  Proof. intros. eapply lossy_seeded; eassumption. Qed.
+End LossyProps.
+
+(* the naming hypothesis is satisfiable on all of Z *)
+Example C16_nonvacuous_lossy_naming : forall i, nv_code (nv_name i) = i.
+Proof. exact nv_code_name. Qed.
+
+(* a reader behind while "a" (seeded 1) is deleted and re-added as 1.25 and "b" (seeded 5) as 7, under a margin
+   of 0.5: the merge stage hands on two REPLACEs; the one of "a" is not delivered, the one of "b" is; the case
+   passes agrees, guard and the oracle *)
+Definition nv_mark (s : string) : cval :=
+  CM "sc.go.test.TestAllTypes" true [("default_double"%string, CS (CF64 (FFin 1048576))); ("default_string"%string, CS (CStr s))] [].
+Definition nv_d (d : Q) : cval := CM "sc.go.test.TestAllTypes" true [("default_double"%string, CS (CF64 (FFin d)))] [].
+Example C16_nonvacuous_lossy :
+  let init := [("a"%string, nv_d 1); ("b"%string, nv_d 5)] in
+  let ph := [("pp"%string, Some (nv_mark "plug-0")); ("a"%string, None); ("a"%string, Some (nv_d (5#4)));
+             ("b"%string, None); ("b"%string, Some (nv_d 7)); ("zz"%string, Some (nv_mark "barrier-0"))] in
+  let em := [("a"%string, None, Some (nv_d 1)); ("b"%string, None, Some (nv_d 5)); ("pp"%string, None, Some (nv_mark "plug-0"));
+             ("b"%string, Some (nv_d 5), Some (nv_d 7)); ("zz"%string, None, Some (nv_mark "barrier-0"))] in
+  let c := KG true (KCollL (EAnd [VFloat 0 (1#2)]) false None init [ph] em) in
+  map Change.ckind (merged_changes init [ph]) = [1; 4; 4; 1] /\
+  (agrees c && C16_guard c && C16_ok c) = true /\
+  (* the same stream with the REPLACE of "a" delivered as well is rejected by the oracle *)
+  C16_ok (KCollL (EAnd [VFloat 0 (1#2)]) false None init [ph]
+            (firstn 3 em ++ [("a"%string, Some (nv_d 1), Some (nv_d (5#4)))] ++ skipn 3 em)) = false.
+Proof. repeat split; vm_compute; reflexivity. Qed.
+
 (* the hypotheses of C16_judge_sound hold of a non-trivial pair case and of a drifting stream *)
 Example C16_nonvacuous_judge_sound :
   let c1 := KG true (KPair (Some (nv_msg (1#2) 5)) (Some (nv_msg (3#4) 7)) (false, false) (false, false)
@@ -553,6 +618,9 @@ Print Assumptions C16_collection_updates_only.
 Print Assumptions C16_collection_no_equivalence_unchanged.
 Print Assumptions C16_collection_v0_right_for_equivalence_relations.
 Print Assumptions C16_whole_message_is_ideal.
+Print Assumptions C16_collection_lossy_history_chained.
+Print Assumptions C16_collection_lossy_delivers_iff_not_equivalent_to_held.
+Print Assumptions C16_collection_lossy_seeded.
 Print Assumptions C16_tree_verdict.
 Print Assumptions C16_tree_answers_iff_some_leaf_applies.
 Print Assumptions C16_and_tree_is_conj_of_applicable_leaves.
